@@ -53,6 +53,20 @@ Section KronIndex.
   Definition kron_mult (us : list umat) (x : list cx) : option (list cx) :=
     if Nat.eqb (2 ^ length us) (length x) then Some (kron_index us x) else None.
 
+  (* which dictionary a rotation uses (commit c22f10c):
+       unitaries = unitaries or getattr(nn_state, "unitary_dict", None) or create_dict()
+     A dictionary is represented by its table of user-added matrices on top of the defaults
+     (Unitaries.lookup); the default dictionary create_dict() is the empty table.  [None] stands for
+     "not given" (argument) / "the state has no unitary_dict" (PositiveWaveFunction); a given but
+     empty Python dict is falsy as well and is also represented by [None]. *)
+  Definition resolve_dict (arg state : option (list umat)) : list umat :=
+    match arg with
+    | Some d => d
+    | None => match state with Some d => d | None => [] end
+    end.
+  Definition rotate_psi_resolved (arg state : option (list umat)) (basis : list letter) (psi : list cx) :=
+    rotate_psi O (resolve_dict arg state) basis psi.
+
   (* rotate_psi / rotate_rho through the index-level sweep (what the code executes) *)
   Definition rotate_psi_index (user : list umat) (basis : list letter) (psi : list cx) : option (list cx) :=
     kron_mult (map (lookup O user) basis) psi.
